@@ -294,13 +294,29 @@ def jobs(tier):
                         out.append(Job('C05', 'c05:h_foreign_tp', {'dll': dll, 'cas': cas, 'listeners': ls, 'kind': kind}, W=40, wall=300, validate=1))
         for size in (9, 14, 28):
             out.append(Job('C05', 'c05:h_bystander', {'dll': 'j1939-21', 'size': size}, W=40, wall=300, validate=1))
+        # every ordered pair of claim histories (a transitional one only last) with three listener sets
+        from .common import CA_STATES
+        trans = ('wait_veto', 'lost_waiting', 'moved_lost_waiting', 'bypassed_lost_waiting')
+        for a in CA_STATES:
+            if a in trans:
+                continue
+            for b in CA_STATES:
+                cas = [[a, 10 if a == 'normal_immediate' else 128], [b, 20 if b == 'normal_immediate' else 140]]
+                for ls in (['none'], ['none', 129, (140, 142)], [141, 'none', (0, 255)]):
+                    for dll in dlls:
+                        out.append(Job('C05', 'c05:h_single', {'dll': dll, 'cas': cas, 'listeners': ls, 'pdu2': False}, W=40, wall=300, validate=1))
+                        if ls == ['none']:
+                            out.append(Job('C05', 'c05:h_single', {'dll': dll, 'cas': cas, 'listeners': ls, 'pdu2': True}, W=40, wall=300, validate=1))
+                        if b not in trans:
+                            for kind in (('cm', 'dt') if dll == 'j1939-21' else ('cm', 'dt', 'mpg')):
+                                out.append(Job('C05', 'c05:h_foreign_tp', {'dll': dll, 'cas': cas, 'listeners': ls, 'kind': kind}, W=40, wall=300, validate=1))
     return out
 
 
 def meta(tier):
     return {
         'bounds': ['destination address 0..255, priority, data page, PDU format (non-protocol PDU1 / PDU2 class), 8 data bytes: symbolic',
-                   'stack configurations CFGS (0..3 CAs in claim histories reached by the real procedure; ECU-level listeners: unfiltered, integer address, predicate)',
+                   'stack configurations CFGS (0..3 CAs in claim histories reached by the real procedure; ECU-level listeners: unfiltered, integer address, predicate)' + ('' if tier == 'quick' else '; thorough: every ordered pair of the 14 claim histories x 3 listener sets'),
                    'foreign TP.CM / TP.DT (FD: FD.TP.CM / FD.TP.DT / multi-PG) with all data bytes symbolic (every control byte, size, packet, sequence field) to every unowned destination; then 6 s of silence and a follow-up RTS',
                    'can.Message flag combinations (extended, remote, error) through the real MessageListener (concrete data bytes)',
                    'bystander observing a complete foreign 3-packet RTS/CTS session with symbolic payload',
